@@ -536,6 +536,11 @@ func c18ExportImport(t *testing.T, r *rand.Rand, w *CaseWriter, label string, re
 		t.Fatalf("%s: parse export: %v", label, err)
 	}
 	snap := c18TakeSnap(ref, m1)
+	d1, err := c18ParseDeep(cdc, st1)
+	if err != nil {
+		t.Fatalf("%s: parse export (exchange/marker/metadata): %v", label, err)
+	}
+	ixRef := ref.deepIndex()
 	// what the queries will ask about
 	var names, denoms, scopes []string
 	for _, b := range m1.Name.Bindings {
@@ -577,6 +582,9 @@ func c18ExportImport(t *testing.T, r *rand.Rand, w *CaseWriter, label string, re
 	accept1, accept2 := true, true
 	e1, err := c18Start(t, g1, "")
 	var m2, m2x, m3 c18Mods
+	var d2, d2x, d3 c18Deep
+	var ixImp, ixRef2, ixImp2 string
+	var st2deep map[string]json.RawMessage
 	var g2 c18Genesis
 	var snap2 c18Snap
 	var at time.Time
@@ -585,7 +593,6 @@ func c18ExportImport(t *testing.T, r *rand.Rand, w *CaseWriter, label string, re
 	jsonDiff := map[string]map[string]any{}
 	var qdiff []string
 	var storeDiff map[string][]string
-	_ = storeDiff
 	qdiffOnlyNavHeight, qdiffOnlyStaleLookup := true, true
 	if err != nil {
 		accept1, accept2 = false, false
@@ -596,6 +603,10 @@ func c18ExportImport(t *testing.T, r *rand.Rand, w *CaseWriter, label string, re
 		if m2, err = e1.keeperMods(); err != nil {
 			t.Fatalf("%s: keeper export: %v", label, err)
 		}
+		if d2, err = e1.keeperDeep(); err != nil {
+			t.Fatalf("%s: keeper export (exchange/marker/metadata): %v", label, err)
+		}
+		ixImp = e1.deepIndex()
 		// both chains run the same next (empty) block; their exports and queries must agree
 		// (three blocks, 25 s apart, so that waiting height/time triggers fire, queued ones run and
 		// attributes expire on both sides)
@@ -670,6 +681,11 @@ func c18ExportImport(t *testing.T, r *rand.Rand, w *CaseWriter, label string, re
 			t.Fatalf("%s: parse export 2: %v", label, err)
 		}
 		snap2 = c18TakeSnap(e1, m2x)
+		if d2x, err = c18ParseDeep(cdc, st2); err != nil {
+			t.Fatalf("%s: parse export 2 (exchange/marker/metadata): %v", label, err)
+		}
+		ixRef2 = e1.deepIndex()
+		st2deep = st2
 		e2, err := c18Start(t, g2, "")
 		if err != nil {
 			accept2 = false
@@ -678,6 +694,10 @@ func c18ExportImport(t *testing.T, r *rand.Rand, w *CaseWriter, label string, re
 			if m3, err = e2.keeperMods(); err != nil {
 				t.Fatalf("%s: keeper export 3: %v", label, err)
 			}
+			if d3, err = e2.keeperDeep(); err != nil {
+				t.Fatalf("%s: keeper export 3 (exchange/marker/metadata): %v", label, err)
+			}
+			ixImp2 = e2.deepIndex()
 			at2 := at.Add(6 * time.Second)
 			if _, err := e1.block(at2, nil); err != nil {
 				t.Fatalf("%s: block on imported chain: %v", label, err)
@@ -718,6 +738,26 @@ func c18ExportImport(t *testing.T, r *rand.Rand, w *CaseWriter, label string, re
 			map[string]any{"kind": "roundtrip", "label": label, "holds": len(m1.Hold.Holds), "names": len(m1.Name.Bindings), "attributes": len(m1.Attr.Attributes),
 				"quarantine_records": len(m1.Quar.QuarantinedFunds), "temp_sanctions": len(m1.Sanc.TemporaryEntries), "triggers": len(m1.Trig.Triggers), "queued": len(m1.Trig.QueuedTriggers)})
 		w.Nontrivial(label + "/roundtrip")
+		if accept2 {
+			w.Add(fmt.Sprintf("CDeepRound %s\n (%s)\n (%s)\n (%s)\n (%s)\n (%s)", coqStr(label+"/second"), c18DeepTables(cdc, st2deep, m2x.Hold, d2x, d3), d2x.coq(), d3.coq(), ixRef2, ixImp2),
+				map[string]any{"kind": "deep_roundtrip", "label": label, "generation": 2, "orders": len(d2x.Exch.Orders), "markers": len(d2x.Mark.Markers), "scopes": len(d2x.Md.Scopes)})
+		}
+		w.Add(fmt.Sprintf("CDeepRound %s\n (%s)\n (%s)\n (%s)\n (%s)\n (%s)", coqStr(label), c18DeepTables(cdc, st1, m1.Hold, d1, d2), d1.coq(), d2.coq(), ixRef, ixImp),
+			map[string]any{"kind": "deep_roundtrip", "label": label, "orders": len(d1.Exch.Orders), "commitments": len(d1.Exch.Commitments), "payments": len(d1.Exch.Payments),
+				"markers": len(d1.Mark.Markers), "deny": len(d1.Mark.DenySendAddresses), "scopes": len(d1.Md.Scopes), "sessions": len(d1.Md.Sessions), "records": len(d1.Md.Records),
+				"scope_specs": len(d1.Md.ScopeSpecifications), "locators": len(d1.Md.ObjectStoreLocators)})
+		for _, m := range c18Modules {
+			diff := storeDiff[m]
+			desc := map[string]any{"kind": "store", "label": label, "module": m, "differing_entries": len(diff)}
+			if len(diff) > 0 {
+				show := diff
+				if len(show) > 12 {
+					show = show[:12]
+				}
+				desc["first_differences"] = show
+			}
+			w.Add(fmt.Sprintf("CStore %s %s %s", coqStr(label), coqStr(m), c18N(uint64(len(diff)))), desc)
+		}
 		for _, m := range c18Modules {
 			e23, ok := jsonEq23[m]
 			if !ok {
@@ -750,6 +790,9 @@ func c18ExportImport(t *testing.T, r *rand.Rand, w *CaseWriter, label string, re
 	// perturbed genesis files through the real InitChain
 	for i := 0; i < nPerturb; i++ {
 		c18Perturbed(t, r, w, fmt.Sprintf("%s/p%d", label, i), ref, snap, g1, st1, m1)
+	}
+	for i := 0; i < nPerturb; i++ {
+		c18DeepPerturbed(t, r, w, fmt.Sprintf("%s/d%d", label, i), ref, g1, st1, m1.Hold, d1)
 	}
 }
 
